@@ -330,6 +330,9 @@ def run_case(module_src: str, func: str, args_list: list[tuple[Any, ...]], alias
     """exec the module, call func on (deep copies of) every argument tuple; observe result, exception, arguments, stdout"""
     ns: dict[str, Any] = {"__name__": "case_module"}
     try:
+        import warnings
+
+        warnings.simplefilter("ignore", SyntaxWarning)
         exec(compile(module_src, "<case>", "exec"), ns)  # noqa: S102
     except BaseException as e:  # noqa: BLE001
         return [["module-raised", type(e).__name__]] * len(args_list)
